@@ -37,6 +37,20 @@ type Edit struct {
 	// "mont-root": a non-bit x for which the bit test x^2-x is a non-zero
 	// element that is zero in part of the internal (Montgomery) representation
 	Kind string
+	// Delta (Kind "add"): the element is changed by this (signed) amount.
+	Delta int64
+}
+
+// ChunkClass labels how the chunk length relates to the number of
+// range-checked elements (for the evidence histogram).
+func ChunkClass(total int, chunk uint) string {
+	switch {
+	case int(chunk) >= total:
+		return "chunk>=total"
+	case total%int(chunk) == 0:
+		return "chunk-divides"
+	}
+	return "chunk-not-dividing"
 }
 
 // NonBitKinds are the values that are not bits.
@@ -106,6 +120,8 @@ func setElt[E arith.Elt, F arith.Fp[E]](t *rapid.T, e *E, kind string) {
 		f.Inv(&two)
 	case "pow2":
 		_ = f.SetUint64(uint64(1) << uint(rapid.IntRange(1, 62).Draw(t, "pow2")))
+	case "add":
+		return
 	case "mont-root":
 		size := f.Size()
 		x := montRoot(t, size)
@@ -137,6 +153,17 @@ func Run[V arith.Vec[V, E], E arith.Elt, F arith.Fp[E]](t *rapid.T, f FLP[V], me
 	m := arith.NewVec[V](uint(len(meas)))
 	copy(m, meas)
 	for _, e := range edits {
+		if e.Kind == "add" {
+			var d E
+			if e.Delta >= 0 {
+				_ = F(&d).SetUint64(uint64(e.Delta))
+				F(&m[e.Idx]).AddAssign(&d)
+			} else {
+				_ = F(&d).SetUint64(uint64(-e.Delta))
+				F(&m[e.Idx]).SubAssign(&d)
+			}
+			continue
+		}
 		setElt[E, F](t, &m[e.Idx], e.Kind)
 	}
 	rd := vlib.DrawReader(t, "flp")
